@@ -748,3 +748,34 @@ Print Assumptions scopes_nonempty_inv.
 (* for comparison: the axioms listed above are exactly those of the model's own definitions
    (Model/Float.v uses Flocq, which is built on Coq's axiomatised reals) *)
 Print Assumptions eval_value.
+
+Lemma normal_cases {A} (r : res A) : match r with Panic _ | Fuel => False | _ => True end -> normal r.
+Proof. destruct r; intros H; try contradiction; split; congruence. Qed.
+
+Lemma history_clean : forall U fuel (scripts : list value) st,
+  i_levels st = 0%N -> length (i_scopes st) = 1%nat ->
+  let run := fold_left (fun acc v => match acc with
+                                     | Some st => let '(st', r) := eval_value U fuel st v in
+                                                  match r with Panic _ | Fuel => None | _ => Some st' end
+                                     | None => None
+                                     end) scripts (Some st) in
+  forall st', run = Some st' -> i_levels st' = 0%N /\ length (i_scopes st') = 1%nat.
+Proof.
+  intros U fuel scripts. induction scripts as [|v rest IH]; intros st HL HS run st' Hrun.
+  - cbn in Hrun. inversion Hrun. subst. split; assumption.
+  - subst run. cbn [fold_left] in Hrun.
+    destruct (eval_value U fuel st v) as [st1 r] eqn:E.
+    assert (Hnone : forall l, fold_left (fun acc v => match acc with
+                                     | Some st => let '(st', r) := eval_value U fuel st v in
+                                                  match r with Panic _ | Fuel => None | _ => Some st' end
+                                     | None => None
+                                     end) l (@None interp) = None).
+    { induction l as [|x l IHl]; [reflexivity|exact IHl]. }
+    destruct r as [x|e|p|].
+    + destruct (toplevel_clean U fuel st v st1 (Ok x) HL HS E) as [A B]; [split; congruence|].
+      apply (IH st1 A B st' Hrun).
+    + destruct (toplevel_clean U fuel st v st1 (Err e) HL HS E) as [A B]; [split; congruence|].
+      apply (IH st1 A B st' Hrun).
+    + rewrite Hnone in Hrun. discriminate.
+    + rewrite Hnone in Hrun. discriminate.
+Qed.
